@@ -10,6 +10,7 @@ import (
 	"time"
 
 	"github.com/anishathalye/porcupine"
+	cebpf "github.com/cilium/ebpf"
 	"github.com/codelaboratoryltd/bng/pkg/nat"
 	"github.com/codelaboratoryltd/bng/pkg/simrt"
 	"go.uber.org/zap"
@@ -21,8 +22,8 @@ import (
 
 // C10 — CGNAT port blocks never overlap and are always attributable.
 //
-// Real nat.Manager (eBPF maps absent: NewManager without Start, the Go
-// bookkeeping assigns the blocks) and real nat.Logger writing to a file in a
+// Real nat.Manager (NewManager without Start: the Go bookkeeping assigns the
+// blocks; the subscriber_nat kernel map is installed in a quarter of the runs) and real nat.Logger writing to a file in a
 // private directory. 1-3 caller tasks allocate / deallocate / look up over <=6
 // subscribers and 1-3 public addresses; ops between two "tick" ops form one
 // round that runs at one virtual instant (concurrently if more than one caller
@@ -275,6 +276,9 @@ func c10Gen(r *sim.Rand, tier string) *sim.Case {
 	}
 	cs.Knobs["skipmax"] = int64(sim.Pick(r, 1, 1, 2, 4, 16))
 	cs.Knobs["maporder"] = int64(r.N(4))
+	if r.P(25) {
+		cs.Knobs["natmap"] = 1 // the subscriber_nat kernel map is present
+	}
 	rounds := r.Range(3, 9)
 	if tier == "thorough" {
 		rounds = r.Range(3, 16)
@@ -289,6 +293,9 @@ func c10Gen(r *sim.Rand, tier string) *sim.Case {
 	kind := func() string { return []string{"alloc", "dealloc", "get"}[r.Weighted(11, 6, 2)] }
 	for i := 0; i < rounds && total < 36; i++ {
 		hot := r.N(nsubs)
+		if cs.Knobs["natmap"] == 1 && r.P(40) {
+			cs.Ops = append(cs.Ops, sim.Op{K: "mapdel", A: []int64{int64(hot)}})
+		}
 		if ncl == 1 {
 			for j := r.Range(1, 2); j > 0; j-- {
 				cs.Ops = append(cs.Ops, sim.Op{K: kind(), A: []int64{0, int64(r.N(nsubs))}})
@@ -340,6 +347,20 @@ func c10Run(c *sim.Ctx) {
 		panic(err)
 	}
 	w.m = m
+	// data plane: in some runs the subscriber_nat kernel map is present (created by the harness with
+	// the key/value sizes the manager marshals); "mapdel" removes a subscriber's entry out of band,
+	// so that the manager's own delete of it fails (ENOENT) while inserts still work
+	var natMap *cebpf.Map
+	if cs.Knob("natmap", 0) == 1 {
+		mp, err := cebpf.NewMap(&cebpf.MapSpec{Name: "vf_subnat", Type: cebpf.Hash, KeySize: 4, ValueSize: uint32(nat.VerifSubscriberNATValueSize()), MaxEntries: 64})
+		if err != nil {
+			c.S.Probe("kernel_maps_unavailable")
+		} else {
+			natMap = mp
+			defer mp.Close()
+			m.VerifSetSubscriberNATMap(mp)
+		}
+	}
 	var dir string
 	var lg *nat.Logger
 	const base = "nat.log"
@@ -459,6 +480,17 @@ func c10Run(c *sim.Ctx) {
 		case "addip":
 			flush()
 			addIP()
+		case "mapdel":
+			// (not flushed: takes effect before the round's operations run)
+			if natMap != nil {
+				sub := int(op.Arg(0)) % w.nsubs
+				if sub >= 0 {
+					key := nat.VerifPrivKey(c10priv(sub))
+					if natMap.Delete(&key) == nil {
+						c.S.Fault("kmap.entry-removed-out-of-band")
+					}
+				}
+			}
 		case "idle":
 			// a quiet period longer than the log retention age: the hourly retention pass runs over a
 			// log directory whose files were last written before the cut-off
@@ -633,7 +665,7 @@ func init() {
 		Run: c10Run,
 		Real: []string{"nat.Manager (NewManager without Start: eBPF maps absent) AllocateNAT/DeallocateNAT/GetAllocation/AddPublicIP/Stop, statement-level yields",
 			"nat.Logger LogAllocation/LogDeallocation, bulk and per-allocation records in json/syslog/csv/nel, buffer flush, flush loop, size rotation, real file in a private temp directory"},
-		Stub: []string{"eBPF maps and TC programs (absent)", "callers (harness tasks)", "log reader / compliance resolver (harness, written from the log formats)"},
+		Stub: []string{"eBPF TC programs and the NAT maps other than subscriber_nat (absent)", "callers (harness tasks)", "log reader / compliance resolver (harness, written from the log formats)"},
 		Rule: "cases: 3-16 rounds of alloc/dealloc/get by 1-3 callers over 2-6 subscribers and 1-3 public addresses, ports-per-subscriber in {1,3,64,1000,1024,4096,65535}, 0-4 blocks per address, ranges ending at 65535/65534/40000/2047 incl. non-dividing sizes; a round runs at one virtual instant, whole seconds pass between rounds; non-trivial = >=3 completed operations and (a fault fired or >2 context switches); distinct = distinct (case hash, schedule fingerprint)",
 		QuickRuns:    15000,
 		ThoroughRuns: 1500000,
